@@ -135,7 +135,7 @@ Proof.
     destruct pr as [|[w x|l pf|t|] r]; apply Some_inj in Hs; subst s';
       cbn [prog fold_left set_at at_]; try reflexivity.
     f_equal. unfold complete, abs; cbn [at_ kn jobs status lastbg trace ref_cmd r_n r_jobs r_status r_lastbg r_trace k_fork].
-    change (set_kids k (kids k ++ [mkChild (Running w) x 0])) with (fst (k_fork k w x)).
+    change (set_kids k (kids k ++ [mkChild (Running w) x 0 false])) with (fst (k_fork k w x)).
     destruct (fork_kids k w x) as [Hk _]. rewrite Hk, app_length. cbn [length].
     rewrite Nat.add_1_r. f_equal.
     unfold abs_jobs at 1. rewrite map_app. cbn [map fst].
@@ -148,7 +148,7 @@ Proof.
         rewrite Nat.add_0_r; reflexivity.
     + apply Some_inj in Hs; subst s'. cbn [prog set_at at_]. f_equal.
       unfold complete, abs; cbn [at_ kn jobs status lastbg trace r_n r_jobs r_status r_lastbg r_trace k_fork length].
-      change (set_kids k (kids k ++ [mkChild (Running w) x 0])) with (fst (k_fork k w x)).
+      change (set_kids k (kids k ++ [mkChild (Running w) x 0 false])) with (fst (k_fork k w x)).
       destruct (fork_kids k w x) as [Hk _]. rewrite Hk, app_length. cbn [length].
       cbn [members] in Hmem.
       rewrite fold_status_app, code_at_fork_new. cbn [pipe_result].
@@ -160,7 +160,26 @@ Proof.
     destruct m.
     + destruct (negb (blocked k)); [|destruct (negb (catching k))]; apply Some_inj in Hs; subst s'; reflexivity.
     + pose proof (poll_not_echild _ _ _ _ _ _ _ _ HI) as Hne.
-      destruct (kwait k t) as [[i x| |] k'] eqn:Ew; cbn [fst] in Hne; [| |contradiction].
+      assert (Hseen : forall i r k', (r = WStop i \/ r = WCont i) -> kwait k t = (r, k') ->
+                length (kids k') = length (kids k) /\ forall j, code_at k' j = code_at k j).
+      { intros i r k' Hr Ew. destruct (kwait_seen _ _ _ _ i Ew Hr) as [ch [Hn [_ [_ [Hk _]]]]]. subst k'.
+        split; [unfold set_kids; cbn [kids]; apply upd_length|].
+        intros j. apply (code_at_upd k i ch (seen ch) j Hn). reflexivity. }
+      destruct (kwait k t) as [[i x|i|i| |] k'] eqn:Ew; cbn [fst] in Hne; [| | | |contradiction].
+      2: { destruct (Hseen i _ k' (or_introl eq_refl) eq_refl) as [Hlen Hcode].
+           destruct c as [more fin pf ra|t0]; apply Some_inj in Hs; subst s'; cbn [prog at_ set_at]; f_equal;
+             unfold complete, abs; cbn [at_ kn jobs status lastbg trace]; rewrite Hlen;
+             rewrite (abs_jobs_ext k' k jb) by (intros j _; apply Hcode); try reflexivity.
+           - destruct t as [tp|]; try reflexivity.
+             rewrite (fold_status_ext k' k (tp :: more)) by (intros j _; apply Hcode). reflexivity.
+           - destruct t; reflexivity. }
+      2: { destruct (Hseen i _ k' (or_intror eq_refl) eq_refl) as [Hlen Hcode].
+           destruct c as [more fin pf ra|t0]; apply Some_inj in Hs; subst s'; cbn [prog at_ set_at]; f_equal;
+             unfold complete, abs; cbn [at_ kn jobs status lastbg trace]; rewrite Hlen;
+             rewrite (abs_jobs_ext k' k jb) by (intros j _; apply Hcode); try reflexivity.
+           - destruct t as [tp|]; try reflexivity.
+             rewrite (fold_status_ext k' k (tp :: more)) by (intros j _; apply Hcode). reflexivity.
+           - destruct t; reflexivity. }
       * destruct (kwait_some _ _ _ _ _ Ew) as [ch [Hn [Hz [Hx [Hk Ht]]]]]. subst k' x.
         assert (Hcode : forall j, code_at (set_kids k (upd (kids k) i (reap ch))) j = code_at k j)
           by (intros j; apply (code_at_upd k i ch (reap ch) j Hn); reflexivity).
@@ -203,23 +222,58 @@ Proof.
     + destruct (job_unfinished jb) as [|y rest_] eqn:Eu; apply Some_inj in Hs; subst s';
         cbn [prog at_]; f_equal; reflexivity.
   - (* PReap *)
-    destruct (kwait k TAny) as [[i x| |] k'] eqn:Ew; apply Some_inj in Hs; subst s'; try reflexivity.
-    destruct (kwait_some _ _ _ _ _ Ew) as [ch [Hn [Hz [Hx [Hk Ht]]]]]. subst k' x.
-    cbn [prog at_]. f_equal. unfold complete, abs; cbn [at_ kn jobs status lastbg trace].
-    unfold set_kids at 1; cbn [kids]. rewrite upd_length, abs_jobs_update. f_equal.
-    apply abs_jobs_ext. intros j _. apply (code_at_upd k i ch (reap ch) j Hn). reflexivity.
+    destruct (kwait k TAny) as [[i x|i|i| |] k'] eqn:Ew; apply Some_inj in Hs; subst s'; try reflexivity.
+    + destruct (kwait_some _ _ _ _ _ Ew) as [ch [Hn [Hz [Hx [Hk Ht]]]]]. subst k' x.
+      cbn [prog at_]. f_equal. unfold complete, abs; cbn [at_ kn jobs status lastbg trace].
+      unfold set_kids at 1; cbn [kids]. rewrite upd_length, abs_jobs_update. f_equal.
+      apply abs_jobs_ext. intros j _. apply (code_at_upd k i ch (reap ch) j Hn). reflexivity.
+    + destruct (kwait_seen _ _ _ _ i Ew (or_introl eq_refl)) as [ch [Hn [_ [_ [Hk _]]]]]. subst k'.
+      cbn [prog at_ set_at]. f_equal. unfold complete, abs; cbn [at_ kn jobs status lastbg trace].
+      unfold set_kids at 1; cbn [kids]. rewrite upd_length. f_equal.
+      apply abs_jobs_ext. intros j _. apply (code_at_upd k i ch (seen ch) j Hn). reflexivity.
+    + destruct (kwait_seen _ _ _ _ i Ew (or_intror eq_refl)) as [ch [Hn [_ [_ [Hk _]]]]]. subst k'.
+      cbn [prog at_ set_at]. f_equal. unfold complete, abs; cbn [at_ kn jobs status lastbg trace].
+      unfold set_kids at 1; cbn [kids]. rewrite upd_length. f_equal.
+      apply abs_jobs_ext. intros j _. apply (code_at_upd k i ch (seen ch) j Hn). reflexivity.
   - discriminate.
   - discriminate.
+Qed.
+
+Lemma signal_codes k sg t :
+  length (kids (k_signal k sg t)) = length (kids k) /\ forall j, code_at (k_signal k sg t) j = code_at k j.
+Proof.
+  unfold k_signal. destruct (nth_error (kids k) t) as [c|] eqn:Hn; [|auto].
+  destruct sg; destruct (cs c); auto;
+    (split; [rewrite kids_raise; unfold set_kids; cbn [kids]; apply upd_length|]); intros j;
+    match goal with |- code_at (raise_chld ?X) _ = _ =>
+      rewrite (code_at_kids (raise_chld X) X j (kids_raise X)) end;
+    match goal with |- context [upd _ _ ?c'] =>
+      exact (code_at_upd k t c c' j Hn eq_refl) end.
+Qed.
+
+Lemma child_step_codes k i k' :
+  child_step k i = Some k' ->
+  length (kids k') = length (kids k) /\ forall j, code_at k' j = code_at k j.
+Proof.
+  unfold child_step. destruct (nth_error (kids k) i) as [c|] eqn:Hn; [|discriminate].
+  destruct (cs c) as [[|[|sg t] r]| | |]; try discriminate; intros H; apply Some_inj in H; subst k'.
+  - split; [rewrite kids_raise; unfold set_kids; cbn [kids]; apply upd_length|].
+    intros j.
+    match goal with |- code_at (raise_chld ?X) _ = _ =>
+      rewrite (code_at_kids (raise_chld X) X j (kids_raise X)) end.
+    match goal with |- context [upd _ _ ?c'] => exact (code_at_upd k i c c' j Hn eq_refl) end.
+  - unfold set_kids; cbn [kids]. split; [apply upd_length|].
+    intros j. match goal with |- context [upd _ _ ?c'] => exact (code_at_upd k i c c' j Hn eq_refl) end.
+  - destruct (signal_codes (set_kids k (upd (kids k) i (mkChild (Running r) (code c) (reaps c) (chg c)))) sg t)
+      as [H1 H2].
+    rewrite H1. unfold set_kids at 1; cbn [kids]. split; [apply upd_length|].
+    intros j. rewrite H2. match goal with |- context [upd _ _ ?c'] => exact (code_at_upd k i c c' j Hn eq_refl) end.
 Qed.
 
 Lemma child_step_result s i k' :
   child_step (kn s) i = Some k' -> result (set_at s k' (at_ s)) = result s.
 Proof.
-  intros Hst. destruct (child_step_shape _ _ _ Hst) as [c [c' [Hn [_ [_ [Hcode [_ [Hk _]]]]]]]].
-  assert (Hca : forall j, code_at k' j = code_at (kn s) j).
-  { intros j. unfold code_at. rewrite Hk. rewrite (nth_error_upd _ i j _ c Hn).
-    destruct (Nat.eqb_spec i j) as [->|Hne]; [rewrite Hn; assumption | reflexivity]. }
-  assert (Hlen : length (kids k') = length (kids (kn s))) by (rewrite Hk; apply upd_length).
+  intros Hst. destruct (child_step_codes _ _ _ Hst) as [Hlen Hca].
   unfold result, set_at; cbn [prog]. f_equal.
   unfold complete, abs; cbn [at_ kn jobs status lastbg trace].
   rewrite Hlen. rewrite (abs_jobs_ext k' (kn s) (jobs s)) by (intros j _; apply Hca).
@@ -260,16 +314,18 @@ Proof.
       * destruct todo as [|[w x] todo]; [destruct pids|]; apply Some_inj in E; subst s1; cbn; discriminate.
       * destruct m.
         -- destruct (negb (blocked k)); [|destruct (negb (catching k))]; apply Some_inj in E; subst s1; cbn; discriminate.
-        -- destruct (kwait k t) as [[i x| |] k'].
+        -- destruct (kwait k t) as [[i x|i|i| |] k'].
            ++ destruct c as [[|p more] fin pf ra|t0]; apply Some_inj in E; subst s1; cbn; try discriminate.
               destruct ra; discriminate.
+           ++ destruct c; apply Some_inj in E; subst s1; cbn; discriminate.
+           ++ destruct c; apply Some_inj in E; subst s1; cbn; discriminate.
            ++ apply Some_inj in E; subst s1; cbn; discriminate.
            ++ destruct c; apply Some_inj in E; subst s1; cbn; discriminate.
         -- destruct (0 <? caught (k_unblock k)); apply Some_inj in E; subst s1; cbn; discriminate.
         -- destruct (0 <? caught k); [|discriminate]. apply Some_inj in E; subst s1; cbn; discriminate.
       * destruct t0 as [i|]; [destruct (job_find jb i) as [[x|]|] | destruct (job_unfinished jb)];
           apply Some_inj in E; subst s1; cbn; discriminate.
-      * destruct (kwait k TAny) as [[i x| |] k']; apply Some_inj in E; subst s1; cbn; discriminate.
+      * destruct (kwait k TAny) as [[i x|i|i| |] k']; apply Some_inj in E; subst s1; cbn; discriminate.
     + destruct (child_step (kn s) i); [|discriminate]. apply Some_inj in E. subst s1. cbn. assumption.
 Qed.
 
@@ -317,11 +373,9 @@ Proof.
   destruct (schedule_independent_lemma _ _ _ Hr Hf) as [_ [_ [_ Hj]]].
   rewrite ref_wait_all_jobs in Hj. cbn [map] in Hj.
   destruct (In_nth_error _ _ Hin) as [i Hi].
-  destruct (cs c) eqn:Ec.
-  - pose proof (no_zombie_lemma _ _ _ i c Hr Hf Hi) as H. rewrite Hj in H.
-    exfalso. apply H. congruence.
-  - pose proof (no_zombie_lemma _ _ _ i c Hr Hf Hi) as H. rewrite Hj in H.
-    exfalso. apply H. congruence.
-  - split; [reflexivity|]. pose proof (reaped_once_lemma _ _ _ c Hr Hin) as H.
-    rewrite Ec in H. assumption.
+  destruct (cs c) eqn:Ec;
+    try (pose proof (no_zombie_lemma _ _ _ i c Hr Hf Hi) as H; rewrite Hj in H;
+         exfalso; apply H; congruence).
+  split; [reflexivity|]. pose proof (reaped_once_lemma _ _ _ c Hr Hin) as H.
+  rewrite Ec in H. assumption.
 Qed.
